@@ -184,10 +184,19 @@ impl Backend {
         // Each dependency is an outgoing call
         for dep_name in &definition.dependencies {
             // Resolve the dependency to its definition
-            if let Some(dep_def) = self
-                .fixture_db
-                .resolve_fixture_for_file(&file_path, dep_name)
-            {
+            // A parameter named like the fixture itself refers to the overridden (parent)
+            // fixture, exactly as go-to-definition on that parameter does.
+            let resolved = if dep_name == &definition.name {
+                self.fixture_db.find_closest_definition_excluding(
+                    &file_path,
+                    dep_name,
+                    Some(definition),
+                )
+            } else {
+                self.fixture_db
+                    .resolve_fixture_for_file(&file_path, dep_name)
+            };
+            if let Some(dep_def) = resolved {
                 let Some(dep_uri) = self.path_to_uri(&dep_def.file_path) else {
                     continue;
                 };
